@@ -63,7 +63,7 @@ theorem encB_zero_pair (v : Variant) (run : List Byte) (cut : Bool) (rest : List
     continue the reference encoding -/
 def LoopPostM (v : Variant) (w : List Byte) (dst : Nat) (pre run bs : List Byte) (o : LoopOut) : Prop :=
   o.win.length = w.length ∧ o.rem ≤ bs.length ∧ (dst + 2 * bs.length < w.length → o.rem = 0) ∧
-  o.dst + 2 * o.rem ≤ dst + 2 * bs.length ∧
+  o.dst + 2 * o.rem ≤ dst + 2 * bs.length ∧ (dst + 2 ≤ w.length → bs ≠ [] → o.rem < bs.length) ∧
   ∃ fin' run', o.code = run'.length + 1 ∧ run'.length + 1 < v.maxlen ∧
     o.dst = pre.length + fin'.length + o.code ∧ o.dst ≤ w.length ∧
     o.win.take o.dst = pre ++ fin' ++ codeOf run' :: run' ∧
@@ -81,8 +81,8 @@ theorem LoopPostM.cons {v : Variant} {w w1 : List Byte} {dst dst1 : Nat} {pre de
     (hs : ∀ cut r, (cut = true ∨ ∀ y c tl, r = (y, c) :: tl → Q y) →
       encB v run false ((b, cut) :: r) = delta ++ encB v run1 false r) :
     LoopPostM v w dst pre run (b :: rest) o := by
-  obtain ⟨h1, h2, h3, h3b, fin', run', h4, h5, h6, h7, h8, h9⟩ := h
-  refine ⟨by omega, by simp; omega, ?_, by simp; omega, delta ++ fin', run', h4, h5, ?_, by omega, ?_, ?_⟩
+  obtain ⟨h1, h2, h3, h3b, _, fin', run', h4, h5, h6, h7, h8, h9⟩ := h
+  refine ⟨by omega, by simp; omega, ?_, by simp; omega, (fun _ _ => by simp only [List.length_cons]; omega), delta ++ fin', run', h4, h5, ?_, by omega, ?_, ?_⟩
   · intro ha; apply h3; simp at ha; omega
   · simp at h6 ⊢; omega
   · simpa using h8
@@ -120,8 +120,8 @@ theorem LoopPostM.cons2 {v : Variant} {w w1 : List Byte} {dst dst1 : Nat} {pre r
     {o : LoopOut} (h : LoopPostM v w1 dst1 (pre ++ (pairCode run :: run)) [] rest o) (hl : w1.length = w.length)
     (hd : dst1 ≤ dst + 2) (hp : pairOk v run = true) :
     LoopPostM v w dst pre run (0 :: 0 :: rest) o := by
-  obtain ⟨h1, h2, h3, h3b, fin', run', h4, h5, h6, h7, h8, h9⟩ := h
-  refine ⟨by omega, by simp; omega, ?_, by simp; omega, (pairCode run :: run) ++ fin', run', h4, h5, ?_, by omega, ?_, ?_⟩
+  obtain ⟨h1, h2, h3, h3b, _, fin', run', h4, h5, h6, h7, h8, h9⟩ := h
+  refine ⟨by omega, by simp; omega, ?_, by simp; omega, (fun _ _ => by simp only [List.length_cons]; omega), (pairCode run :: run) ++ fin', run', h4, h5, ?_, by omega, ?_, ?_⟩
   · intro ha; apply h3; simp at ha; omega
   · simp at h6 ⊢; omega
   · simpa using h8
@@ -165,7 +165,7 @@ theorem encLoopM_spec (v : Variant) : ∀ (n : Nat) (bs : List Byte), bs.length 
     refine ⟨⟨w.set pre.length (UInt8.ofNat code), dst, code, 0⟩, ?_, ?_⟩
     · simp only [encLoop, hi]
       rw [wr_ok _ _ _ (by omega)]; rfl
-    · refine ⟨by simp, by simp, by simp, by simp, [], run, hc, hr, by simp; omega, by simp; omega, ?_, by simp [markChunk_nil]⟩
+    · refine ⟨by simp, by simp, by simp, by simp, (fun _ h => absurd rfl h), [], run, hc, hr, by simp; omega, by simp; omega, ?_, by simp [markChunk_nil]⟩
       simp only [List.append_nil]
       rw [take_set_mid w dst pre ph _ run hw, hc]; rfl
   | cons b rest =>
@@ -196,7 +196,7 @@ theorem encLoopM_spec (v : Variant) : ∀ (n : Nat) (bs : List Byte), bs.length 
             simp only [CRes.bind_ok]
             rw [if_pos (by simpa using hfull), wr_ok _ _ _ (by simp; omega)]
             simp
-          · refine ⟨by simp, by simp; omega, by simp; omega, by simp; omega, pairCode run :: run, [], rfl, by simp; omega, ?_, by simp; omega, ?_, ?_⟩
+          · refine ⟨by simp, by simp; omega, by simp; omega, by simp; omega, (fun _ _ => by simp only [List.length_cons]; omega), pairCode run :: run, [], rfl, by simp; omega, ?_, by simp; omega, ?_, ?_⟩
             · simp only [List.length_cons]; omega
             · simp only
               rw [take_succ_set _ _ _ (by simp; omega), hw1p]; simp [codeOf]
@@ -249,7 +249,7 @@ theorem encLoopM_spec (v : Variant) : ∀ (n : Nat) (bs : List Byte), bs.length 
             rw [wr_ok _ _ _ (by omega)]
             simp only [CRes.bind_ok]
             rw [if_pos (by simpa using hfull), wr_ok _ _ _ (by simp; omega)]; rfl
-          · refine ⟨by simp, by simp, by simp; omega, by simp; omega, codeOf run :: run, [], rfl, by simp; omega, ?_, by simp; omega, ?_, ?_⟩
+          · refine ⟨by simp, by simp, by simp; omega, by simp; omega, (fun _ _ => by simp only [List.length_cons]; omega), codeOf run :: run, [], rfl, by simp; omega, ?_, by simp; omega, ?_, ?_⟩
             · simp only [List.length_cons]; omega
             · simp only
               rw [take_succ_set _ _ _ (by simp; omega), hw1]; simp [codeOf]
@@ -283,7 +283,7 @@ theorem encLoopM_spec (v : Variant) : ∀ (n : Nat) (bs : List Byte), bs.length 
             rw [wr_ok _ _ _ hd]
             simp only [CRes.bind_ok]
             rw [if_pos hfull, wr_ok _ _ _ (by simp; omega)]; rfl
-          · refine ⟨by simp, by simp, by simp; omega, by simp, [], run, hc, hr, by simp; omega, by simp; omega, ?_, ?_⟩
+          · refine ⟨by simp, by simp, by simp; omega, by simp, (fun h _ => by omega), [], run, hc, hr, by simp; omega, by simp; omega, ?_, ?_⟩
             · simp only [List.append_nil]
               rw [take_set_mid _ dst pre ph _ run hw0, hc]; rfl
             · intro r; simp [markChunk_nil]
@@ -300,7 +300,7 @@ theorem encLoopM_spec (v : Variant) : ∀ (n : Nat) (bs : List Byte), bs.length 
               rw [← hmax, wr_ok _ _ _ (by simp; omega)]
               simp only [CRes.bind_ok]
               rw [if_pos hfull2, wr_ok _ _ _ (by simp; omega)]; rfl
-            · refine ⟨by simp, by simp, by simp; omega, by simp; omega, UInt8.ofNat v.maxlen :: (run ++ [b]), [], rfl, by simp; omega, ?_, by simp; omega, ?_, ?_⟩
+            · refine ⟨by simp, by simp, by simp; omega, by simp; omega, (fun _ _ => by simp only [List.length_cons]; omega), UInt8.ofNat v.maxlen :: (run ++ [b]), [], rfl, by simp; omega, ?_, by simp; omega, ?_, ?_⟩
               · simp only [List.length_cons, List.length_append, List.length_nil]; omega
               · simp only
                 rw [take_succ_set _ _ _ (by simp; omega), hw2]; simp [codeOf]
@@ -332,7 +332,7 @@ theorem encLoopM_spec (v : Variant) : ∀ (n : Nat) (bs : List Byte), bs.length 
             rw [wr_ok _ _ _ hd]
             simp only [CRes.bind_ok]
             rw [if_pos hfull, wr_ok _ _ _ (by simp; omega)]; rfl
-          · refine ⟨by simp, by simp, by simp; omega, by simp; omega, [], run ++ [b], by simp; omega, by simp; omega, by simp; omega, by simp; omega, ?_, ?_⟩
+          · refine ⟨by simp, by simp, by simp; omega, by simp; omega, (fun _ _ => by simp only [List.length_cons]; omega), [], run ++ [b], by simp; omega, by simp; omega, by simp; omega, by simp; omega, ?_, ?_⟩
             · simp only [List.append_nil]
               rw [take_set_mid _ (dst + 1) pre ph _ (run ++ [b]) hw1, hc]
               simp [codeOf]
@@ -487,6 +487,7 @@ theorem encodeCobs_pushM (v : Variant) (st : EncState) (win pre : List Byte) (ms
     ∃ o, encodeCobs v st win (some bytes) = .ok o ∧ o.win.length = win.length ∧ o.ret ≤ bytes.length ∧
       (st.done + st.scratch + 1 + 2 * bytes.length < win.length → o.ret = bytes.length) ∧
       o.st.done + o.st.scratch + 2 * (bytes.length - o.ret) ≤ st.done + st.scratch + 1 + 2 * bytes.length ∧
+      (st.done + st.scratch + 3 ≤ win.length → 0 < o.ret) ∧
       EncInvM v o.st o.win pre (ms ++ markChunk (bytes.take o.ret)) := by
   obtain ⟨fin, run, h1, h2, h3, h4⟩ := h
   have hm := v.maxlen_cases
@@ -516,15 +517,18 @@ theorem encodeCobs_pushM (v : Variant) (st : EncState) (win pre : List Byte) (ms
       rw [hph, e, b, c]; simp
     · refine ⟨codeOf run, st.scratch, by simp; omega, a, by rw [b], by omega⟩
   obtain ⟨ph, code, hc1, hc2, hc3, hc4⟩ := hloop
-  obtain ⟨o, ho, hp1, hp2, hp3, hp3b, fin', run', hp4, hp5, hp6, hp7, hp8, hp9⟩ :=
+  obtain ⟨o, ho, hp1, hp2, hp3, hp3b, hp3c, fin', run', hp4, hp5, hp6, hp7, hp8, hp9⟩ :=
     encLoopM_spec v bytes.length bytes rfl win (st.done + code) code (pre ++ fin) ph run hc3 hc2 hc4 h2
   rw [← hc1, ho]
   have hcode : code ≤ st.scratch + 1 := by rw [hc1]; split <;> omega
-  refine ⟨_, rfl, hp1, by simp, ?_, ?_, ?_⟩
+  refine ⟨_, rfl, hp1, by simp, ?_, ?_, ?_, ?_⟩
   · intro ha
     have : o.rem = 0 := hp3 (by omega)
     simp [this]
   · simp only; omega
+  · intro ha
+    have : o.rem < bytes.length := hp3c (by omega) (by intro h; simp [h] at hb)
+    simp only; omega
   · refine ⟨fin ++ fin', run', ?_, hp5, Or.inr ⟨hp4, ?_, ?_⟩, ?_⟩
     · simp only [List.length_append] at hp6 ⊢; omega
     · have : o.dst - o.code + o.code = o.dst := by omega
@@ -567,6 +571,7 @@ theorem encode_pushM (v : Variant) (st : EncState) (win pre : List Byte) (ms : L
     ∃ o, encode (.cobs v) st win (some bytes) = .ok o ∧ o.win.length = win.length ∧ o.ret ≤ bytes.length ∧
       (st.done + st.scratch + 1 + 2 * bytes.length < win.length → o.ret = bytes.length) ∧
       o.st.done + o.st.scratch + 2 * (bytes.length - o.ret) ≤ st.done + st.scratch + 1 + 2 * bytes.length ∧
+      (st.done + st.scratch + 3 ≤ win.length → 0 < o.ret) ∧
       EncInvM v o.st o.win pre (ms ++ markChunk (bytes.take o.ret)) := by
   rw [encode_some]; exact encodeCobs_pushM v st win pre ms bytes h
 
@@ -599,7 +604,7 @@ theorem sched_refinesM (v : Variant) (fill : Byte) (fuel : Nat) :
         exact ⟨ms, by simp, h2, h4, h6⟩
     | cons ch rest =>
       simp only [encodeSched] at h
-      rcases encode_pushM v st win pre ms ch hinv with ⟨_, he⟩ | ⟨he, _⟩ | ⟨o', he, _, hr, _, _, hinv'⟩
+      rcases encode_pushM v st win pre ms ch hinv with ⟨_, he⟩ | ⟨he, _⟩ | ⟨o', he, _, hr, _, _, _, hinv'⟩
       · rw [he] at h; simp at h
       · rw [he] at h
         simp only [if_true] at h
@@ -640,7 +645,7 @@ theorem sched_totalM (v : Variant) (fill : Byte) (chunks : List (List Byte)) :
     intro st win pre ms hne hsp hinv
     simp only [encodeSched, List.length_cons]
     simp only [List.flatten_cons, List.length_append, List.length_cons] at hsp
-    rcases encode_pushM v st win pre ms ch hinv with ⟨hnil, _⟩ | ⟨_, hl⟩ | ⟨o', he, hlen, _, hall, hgrow, hinv'⟩
+    rcases encode_pushM v st win pre ms ch hinv with ⟨hnil, _⟩ | ⟨_, hl⟩ | ⟨o', he, hlen, _, hall, hgrow, _, hinv'⟩
     · exact absurd hnil (hne ch (by simp))
     · omega
     · rw [he]
